@@ -372,9 +372,21 @@ func (c *PCluster) Write(i int, id int, timeout time.Duration) string {
 // sends a NewTerm request meanwhile, and reports the head the node answers and the head of its WAL
 // once both are done.
 func (c *PCluster) RaceWriteNewTerm(i int, id int, term int64) string {
+	walHead := func() string {
+		v := c.View(i)
+		if len(v.Log) == 0 {
+			return "-1:-1"
+		}
+		last := v.Log[len(v.Log)-1]
+		return fmt.Sprintf("%s:%d", last[:strings.Index(last, ":")], len(v.Log)-1)
+	}
 	lc, err := c.Nodes[i].dirc.GetLeader(Shard)
 	if err != nil {
-		return c.NewTerm(i, term)
+		rep := c.NewTerm(i, term)
+		if strings.HasPrefix(rep, "head=") {
+			return rep + " wal=" + walHead()
+		}
+		return rep
 	}
 	release := make(chan struct{})
 	reached := make(chan struct{})
@@ -411,13 +423,7 @@ func (c *PCluster) RaceWriteNewTerm(i int, id int, term int64) string {
 	if !strings.HasPrefix(rep, "head=") {
 		return rep
 	}
-	v := c.View(i)
-	wh := "-1:-1"
-	if len(v.Log) > 0 {
-		last := v.Log[len(v.Log)-1]
-		wh = fmt.Sprintf("%s:%d", last[:strings.Index(last, ":")], len(v.Log)-1)
-	}
-	return rep + " wal=" + wh
+	return rep + " wal=" + walHead()
 }
 
 // Restart closes the node's controllers (process restart); they are re-created on demand.
@@ -440,6 +446,37 @@ func (c *PCluster) Restart(i int) error {
 	}
 	c.mu.Unlock()
 	return err
+}
+
+// Truncate delivers a Truncate request to a node (as the leader's RPC would).
+func (c *PCluster) Truncate(f int, term int64, offset int64) string {
+	fc, err := c.Nodes[f].dirc.GetOrCreateFollower(constant.DefaultNamespace, Shard, term)
+	if err != nil {
+		return errName(err)
+	}
+	r, err := fc.Truncate(&proto.TruncateRequest{Namespace: constant.DefaultNamespace, Shard: Shard, Term: term, HeadEntryId: &proto.EntryId{Term: term, Offset: offset}})
+	if err != nil {
+		return errName(err)
+	}
+	return fmt.Sprintf("head=%d", r.HeadEntryId.Offset)
+}
+
+// Crash: the node's process dies; its database directory is what is on disk at that moment (Pebble has
+// no WAL of its own), the shard's WAL is kept.
+func (c *PCluster) Crash(i int) error {
+	n := c.Nodes[i]
+	saved := n.dir + "/db.crash"
+	_ = os.RemoveAll(saved)
+	if err := copyDir(n.dir+"/db", saved); err != nil {
+		return err
+	}
+	if err := c.Restart(i); err != nil {
+		return err
+	}
+	if err := os.RemoveAll(n.dir + "/db"); err != nil {
+		return err
+	}
+	return os.Rename(saved, n.dir+"/db")
 }
 
 // ---- observation ----
